@@ -7,8 +7,9 @@ Seam: `is_subtype`, `is_proper_subtype`, `is_same_type`, `join_types`, `meet_typ
 Space (all counts are measured and reported):
   * universe = ~48 atoms + every unary constructor over the atoms (Q: a 20-atom core) + every binary
     constructor over a 12-atom core (Q: 8 atoms); N ~ 1080 (Q ~ 500) types;
-  * ALL ordered pairs: reflexivity (diagonal), proper => subtype, join upper bound, meet lower bound
-    (both argument orders are separate ordered pairs);
+  * ALL ordered pairs: reflexivity (diagonal), proper => subtype (and is_same_type => proper and
+    subtype, which is the same law through the definition of is_same_type), join upper bound, meet
+    lower bound (both argument orders are separate ordered pairs);
   * ALL triples s <: t <: u over Any-free types, via bitset rows of the N x N matrix (transitivity);
   * ALL ordered item sequences (with repetition) of length <= 4 (Q 3) over a 20-type core: the
     simplified union is equivalent (mutual subtyping) to the unsimplified one, for every order, and
@@ -236,13 +237,18 @@ def eval_cache_pairs(job: dict) -> dict:
     mism = []
     n = 0
     influenced = 0
+    skipped = 0
     for op1, s1, t1 in job["q1"]:
         f1 = fns[op1]
         A, B = T[s1], T[t1]
         reset()
         f1(A, B)
-        if cl.cache_sizes() != (0, 0):
-            influenced += 1
+        if cl.cache_sizes() == (0, 0):
+            # q1 left the caches exactly as a reset leaves them: every q2 answer is the reference by
+            # construction; not executed, counted separately
+            skipped += len(q2)
+            continue
+        influenced += 1
         for k, (op, s, t) in enumerate(q2):
             reset()
             f1(A, B)
@@ -250,7 +256,7 @@ def eval_cache_pairs(job: dict) -> dict:
             n += 1
             if got != ref[k]:
                 mism.append(("after_one", op, s, t, ref[k], got, (op1, s1, t1)))
-    return {"mismatch": mism, "pairs": n, "q1_leaving_cache_entries": influenced}
+    return {"mismatch": mism, "pairs": n, "q1_leaving_cache_entries": influenced, "pairs_skipped_q1_left_no_cache_entry": skipped}
 
 
 # --------------------------------------------------------------------------- union simplification
@@ -344,11 +350,11 @@ def parts_index(U: cu.Universe) -> list[list[int]]:
 
 def reduce_and_group(U: cu.Universe, fails: list[tuple]) -> tuple[list[Violation], dict]:
     """Bound-law failures -> lifted manifestations removed -> grouped by (law, shapes) -> violations."""
-    shapes = [cl.kind_of(t, 0) for t in U.types]
     parts = parts_index(U)
     failing_pairs = {frozenset((f[1], f[2])) for f in fails}
     groups: "OrderedDict[tuple, list[tuple]]" = OrderedDict()
-    lifted = Counter()
+    lifted: Counter = Counter()
+    lifted_of: dict[frozenset, list[tuple]] = {}
     n_roots = 0
     for f in fails:  # already in canonical (row-major, simplest-first) order
         law, s, t, side, res = f
@@ -362,27 +368,27 @@ def reduce_and_group(U: cu.Universe, fails: list[tuple]) -> tuple[list[Violation
                 break
         if root is not None:
             lifted[law] += 1
+            lifted_of.setdefault(frozenset(root), []).append(f)
             continue
         n_roots += 1
-        k1, k2 = shapes[s], shapes[t]
-        if not (k1.startswith("Callable") and k2.startswith("Callable")):
-            # argument kinds only separate causes when both sides are callables
-            k1, k2 = k1.split("[")[0] if k1.startswith("Callable") else k1, k2.split("[")[0] if k2.startswith("Callable") else k2
-        k1, k2 = sorted((k1, k2))
-        groups.setdefault((law, k1, k2), []).append(f)
+        groups.setdefault((law, cl.pair_shape(U.types[s], U.types[t])), []).append(f)
     viol = []
-    for (law, k1, k2), members in groups.items():
+    for (law, shape), members in groups.items():
         _law, s, t, side, res = members[0]
         sig = f"{law}|{U.strs[s]}|{U.strs[t]}"
         what = (f"{law} fails for s = {U.labels[s]!r}, t = {U.labels[t]!r}: "
                 f"{'join' if law.startswith('join') else 'meet'}(s, t) = {res} is not a "
                 f"{'supertype' if law.startswith('join') else 'subtype'} of the {side} argument "
-                f"[{len(members)} root pair/side failures of shapes {k1} x {k2}]")
+                f"[{len(members)} root pair/side failures of shape {shape}]")
         viol.append(Violation(sig, what, {
             "kind": "pair", "tier": U.tier, "law": law, "s": U.labels[s], "t": U.labels[t], "side": side,
-            "result": res, "s_type": U.strs[s], "t_type": U.strs[t], "group_shapes": [k1, k2],
+            "result": res, "s_type": U.strs[s], "t_type": U.strs[t], "group_shape": shape,
             "group_size": len(members),
             "members": [{"s": U.labels[m[1]], "t": U.labels[m[2]], "side": m[3], "result": m[4]} for m in members[:MAX_MEMBERS]],
+            "lifted_manifestations": sum(len(lifted_of.get(frozenset((m[1], m[2])), [])) for m in members),
+            "lifted_examples": [
+                {"law": x[0], "s": U.labels[x[1]], "t": U.labels[x[2]], "side": x[3], "result": x[4]}
+                for m in members[:MAX_MEMBERS] for x in lifted_of.get(frozenset((m[1], m[2])), [])[:1]][:10],
         }))
     return viol, {"lifted_manifestations": dict(lifted), "root_failures": n_roots, "cause_groups": len(groups)}
 
@@ -537,7 +543,7 @@ def run(ctx: Ctx) -> Result:
     violations.extend(tv)
 
     # ---- cache mode (iv), thorough only
-    cache_iv = {"pairs": 0, "q1": 0, "q2": 0, "q1_leaving_cache_entries": 0}
+    cache_iv = {"pairs": 0, "q1": 0, "q2": 0, "q1_leaving_cache_entries": 0, "pairs_skipped_q1_left_no_cache_entry": 0}
     if ctx.thorough:
         q1, q2 = cache_queries(U)
         cache_iv["q1"], cache_iv["q2"] = len(q1), len(q2)
@@ -549,6 +555,7 @@ def run(ctx: Ctx) -> Result:
                 continue
             cache_iv["pairs"] += val["pairs"]
             cache_iv["q1_leaving_cache_entries"] += val["q1_leaving_cache_entries"]
+            cache_iv["pairs_skipped_q1_left_no_cache_entry"] += val["pairs_skipped_q1_left_no_cache_entry"]
             mism.extend(val["mismatch"])
 
     # ---- union simplification
